@@ -278,12 +278,13 @@ def spec_ref(ex, e, p): return VRef(ex.ev(e.args[0], p).t)
 
 WGT = z3.Function('WGT', I, I)      # W(x): an ARBITRARY integer weight of object x (uninterpreted: what is proved with it holds for every weight function)
 def spec_W(ex, e, p): return VInt(WGT(ex.ev(e.args[0], p).t))
+def spec_K0(ex, e, p): return VInt(z3.Int('K0'))          # an arbitrary integer constant (lemma-level parameter usable inside weight definitions)
 
 
 def install(ex):
     ex.ext_models['chain.from_iterable'] = chain_from_iterable
     ex.module_names.add('chain')
-    ex.spec_ext['flat'] = spec_flat; ex.spec_ext['ref'] = spec_ref; ex.spec_ext['W'] = spec_W
+    ex.spec_ext['flat'] = spec_flat; ex.spec_ext['ref'] = spec_ref; ex.spec_ext['W'] = spec_W; ex.spec_ext['K0'] = spec_K0
     ex.ext_models['LpVariable'] = lp_variable
     ex.ext_models['lpSum'] = lp_sum
     ex.ext_models['LpAffineExpression'] = lp_affine
